@@ -14,7 +14,12 @@ so far, `key.item` sets one item of the dict built so far; a group value (`n: {x
 Every value encodes the source that wrote it, so the winner of every key is identifiable.  In addition every source
 class also occurs with EMPTY content - the empty value of every key type ("" / 0 / [] / {}), the document {}, default
 config files of 0 bytes / whitespace only, environment variables that are present with an empty value - because
-"given but empty" must override like any other value and an empty file must not stop the files after it.  Every case builds a
+"given but empty" must override like any other value and an empty file must not stop the files after it.  One and
+the same config FILE also occurs more than once in one history (twice on the command line with other items in between,
+the file of the env config / a default config file given again on the command line or to parse_path, the env config
+naming a default config file, a default config file listed twice): every application is one more source at its
+position.  And the prefix of the environment variables is derived from names of several shapes (explicit prefix with a
+dash / in mixed case, prog with a dash and an extension, no prefix; subcommand name with a dash).  Every case builds a
 fresh parser, fresh files in a fresh scratch directory and a private environment.  Because the command line
 sequences of every length up to the bound are enumerated, every prefix of every sequence is a case of its own and
 the comparison therefore holds at every intermediate state of the fold.
@@ -41,7 +46,8 @@ META = {
     "space is prefix closed, so the agreement holds at every intermediate state. Nothing is sampled.",
     "level_note": "Trusted: the fold in this file, the rendering of one abstract source into files / environment / argv, "
     "value encoding (every source writes values that name it). Bounded: command line length, four payload kinds per "
-    "config source plus the empty kinds (empty values, {}, empty default config files), seven keys (flat int, flat "
+    "config source plus the empty kinds (empty values, {}, empty default config files), six shapes of the environment "
+    "prefix (five of them on a reduced set of bases), the same file applied up to four times, seven keys (flat int, flat "
     "str, two leaves of one group, List[int], int list with nargs='+', Dict[str,int]); deeper command lines "
     "are explored on a reduced set of non-CLI configurations (stated in the evidence).",
     "design_ref": "DESIGN.md §5 C04",
@@ -59,7 +65,7 @@ CODE_DEFAULTS = {"a": 1, "n.x": 2, "n.y": 3, "l": [4], "d": {"p": 5}, "t": "v6",
 UNSET_DEFAULTS = {"a": 1, "n.x": 2, "n.y": 3, "l": None, "d": None, "t": "v6", "m": [7]}  # shape flat0: list / dict not built yet
 
 # value written by each non-CLI source (the tens digit names the source)
-VAL = {"D1": 11, "Ga": 21, "Gb": 22, "D3": 31, "envcfg": 41, "envvar": 51, "given": 56}
+VAL = {"D1": 11, "Ga": 21, "Gb": 22, "D3": 31, "envcfg": 41, "envvar": 51, "given": 56, "same": 58}
 # default config files: listed order is D1, glob(G*), <never existing>, D3; the file names are chosen so that the
 # listed order differs from the lexicographic order of the paths (z1 > m_a > a3) and the files of the glob are
 # created in reverse order
@@ -70,6 +76,39 @@ DCF_LISTED = [("D1", "z1.yaml"), ("G", "m_*.yaml"), ("X", "k_missing.yaml"), ("D
 
 def cli_value(pos):
     return 61 + 10 * pos  # 61, 71, 81, 91, 101 ...
+
+
+# Shapes of the names from which the prefix of the environment variables is derived.  Documented rule
+# (DOCUMENTATION.rst "Environment variables" and the ENV: lines of the help): [PREFIX_][LEV__]*OPT, all in upper case,
+# PREFIX = env_prefix, or the prog without extension when env_prefix is left at its default, or nothing for
+# env_prefix=False; dots of the key become two underscores, a dash becomes an underscore.
+NAMING = {
+    "APP": {"env_prefix": "APP"},  # what every other block uses
+    "dash": {"env_prefix": "my-tool"},  # explicit prefix with a dash, lower case
+    "prog-dash-ext": {"prog": "my-tool.py"},  # prefix derived from a prog with a dash and an extension
+    "prog": {"prog": "tool"},  # prefix derived from a plain prog
+    "mixed-case": {"env_prefix": "MyTool"},
+    "none": {"env_prefix": False},  # no prefix at all: the variables are CFG, A, N__X, ...
+}
+
+
+# the name of the subcommand is part of the names of its variables (APP_S__A): with the two dash namings the subcommand
+# of the subcommand shape has a dash in its name as well
+SUBNAME = {"dash": "s-x", "prog-dash-ext": "s-x"}
+
+
+def subname(case):
+    return SUBNAME.get((case or {}).get("naming") or "APP", "s")
+
+
+def env_name(case, key):
+    """Name of the environment variable of `key` ("cfg", "a", "n.x", "subcommand", "s.a") by the documented rule."""
+    kw = NAMING[case.get("naming") or "APP"]
+    pref = kw.get("env_prefix", True)
+    if pref is True:
+        pref = os.path.splitext(kw["prog"])[0]
+    name = (pref + "_" if pref else "") + key.replace(".", "__")
+    return name.replace("-", "_").upper()
 
 
 def payload(kind, v):
@@ -137,12 +176,50 @@ CLI_EXTRA = ["cfgfile:A1", "cfgstr:N", "d.p", "n", "nfile"]  # used in the secon
 # (t: the str key with a non-empty value; m, m2: the nargs list with one / two values), used in the "empty-values" blocks
 CLI_EMPTY = ["m", "m2", "t", "t0", "a0", "l0", "d0", "cfgstr:Z", "cfgfile:Z", "cfgstr:E", "cfgfile:E"]
 ROOT_ITEMS = ["rootcfgfile:R", "rootcfgfile:A", "rootcfgstr:R", "rootcfgstr:A"]  # subcommand shape, before the subcommand
+# THE SAME FILE applied more than once in one history.  samefile:<kind> is a config file whose name and content do
+# not depend on the position (every occurrence in one command line is the same path); again:env / again:D1 give, on
+# the command line, the very file that APP_CFG names / the first default config file (only in bases that have it).
+# (root...: the same for the root parser of the subcommand shape, before the subcommand token)
+CLI_SAME = ["samefile:R", "samefile:A", "again:env", "again:D1"]
+ROOT_SAME = ["rootsamefile:R", "rootsamefile:A", "rootagain:env", "rootagain:D1"]
 
 
-def cli_item(name, pos, shape, d):
+def same_source(base, which):
+    """(file name, document) of a non-CLI config file of the base that is given again by another source."""
+    if which == "env":
+        envcfg = base.get("envcfg")
+        assert envcfg and envcfg[1] == "file", "again:env needs an env config given as a file"
+        if envcfg[0].startswith("="):
+            return same_source(base, envcfg[0][1:])
+        return "envcfg.yaml", payload(envcfg[0], VAL["envcfg"])
+    kind = (base.get("dcf") or {}).get(which)
+    assert kind and kind not in RAW_CONTENT, f"again:{which} needs that default config file"
+    return DCF_FILE[which], payload(kind, VAL[which])
+
+
+def applicable(base, item):
+    """Can the command line item be used on this base (again:* need the file they repeat)?"""
+    if "again:" not in item:
+        return True
+    which = item.split(":")[1]
+    if which == "env":
+        return bool(base.get("envcfg")) and base["envcfg"][1] == "file"
+    return (base.get("dcf") or {}).get(which) in ("R", "A", "A1", "N", "Z")
+
+
+def cli_item(name, pos, shape, d, base=None):
     """-> (argv token or list of tokens, [(key, op, value)...], files to write {name: json})."""
     v = cli_value(pos)
     files = {}
+    if name.startswith(("samefile:", "rootsamefile:")):  # one file per kind, whatever the position
+        pk = name.split(":")[1]
+        doc = payload(pk, VAL["same"])
+        fn = f"{name.split(':')[0]}_{pk}.yaml"
+        files[fn] = {subname(base): doc} if name.startswith("root") else doc
+        return "--cfg=" + os.path.join(d, fn), assignments_of_config(doc), files
+    if name.startswith(("again:", "rootagain:")):  # the file exists already (written for the non-CLI source)
+        fn, doc = same_source(base, name.split(":")[1])
+        return "--cfg=" + os.path.join(d, fn), assignments_of_config(doc), files
     if name == "a":
         return f"--a={v}", [("a", "set", v)], files
     if name == "t":
@@ -184,11 +261,11 @@ def cli_item(name, pos, shape, d):
     doc = payload(pk, v)
     if kind_of in ("cfgfile", "rootcfgfile"):
         fn = f"{kind_of}_{pk}_{pos}.yaml"
-        wrapped = {"s": doc} if kind_of == "rootcfgfile" else doc
+        wrapped = {subname(base): doc} if kind_of == "rootcfgfile" else doc
         files[fn] = wrapped
         return "--cfg=" + os.path.join(d, fn), assignments_of_config(doc), files
     if kind_of in ("cfgstr", "rootcfgstr"):
-        wrapped = {"s": doc} if kind_of == "rootcfgstr" else doc
+        wrapped = {subname(base): doc} if kind_of == "rootcfgstr" else doc
         return "--cfg=" + json.dumps(wrapped), assignments_of_config(doc), files
     raise AssertionError(name)
 
@@ -229,8 +306,10 @@ def build_parser(case, d, J):
     ctor_env = mode in ("on", "envoff", "argoff")
     listed = case.get("listed", "all")
     dcf = case.get("dcf") or {}
-    if listed == "all":
+    if listed in ("all", "again"):
         files = [os.path.join(d, fn) for _slot, fn in DCF_LISTED]
+        if listed == "again":  # the first file is listed a second time, after all the others
+            files.append(os.path.join(d, DCF_FILE["D1"]))
     elif listed == "existing":  # only the patterns that match something
         files = []
         for slot, fn in DCF_LISTED:
@@ -238,8 +317,8 @@ def build_parser(case, d, J):
                 files.append(os.path.join(d, fn))
     else:
         raise AssertionError(listed)
-    kw = dict(exit_on_error=False, env_prefix="APP", default_env=ctor_env)
-    if files or listed == "all":
+    kw = dict(exit_on_error=False, default_env=ctor_env, **NAMING[case.get("naming") or "APP"])
+    if files or listed in ("all", "again"):
         kw["default_config_files"] = files
     root = J.ArgumentParser(**kw)
     if shape != "sub":
@@ -252,7 +331,7 @@ def build_parser(case, d, J):
     other = J.ArgumentParser(exit_on_error=False)
     other.add_argument("--o", type=int, default=0)
     sc = root.add_subcommands()
-    sc.add_subcommand("s", sub)
+    sc.add_subcommand(subname(case), sub)
     sc.add_subcommand("o", other)
     return root
 
@@ -262,7 +341,7 @@ def build_parser(case, d, J):
 
 
 def wrap(case, doc):
-    return {"s": doc} if case["shape"] == "sub" else doc
+    return {subname(case): doc} if case["shape"] == "sub" else doc
 
 
 def env_enabled(case):
@@ -285,66 +364,75 @@ def noncli_sources(case):
             # a str instead of a document = the raw content of the file (an existing but empty file)
             files[DCF_FILE[slot]] = RAW_CONTENT[kind] if kind in RAW_CONTENT else wrap(case, doc)
             sources.append(("default_config:" + slot, assignments_of_config(doc)))
+    if case.get("listed") == "again" and dcf.get("D1"):  # listed twice = applied twice, the second time after D3
+        sources.append(("default_config:D1", assignments_of_config(payload(dcf["D1"], VAL["D1"]))))
     on = env_enabled(case)
     envcfg = case.get("envcfg")
     if envcfg:
         kind, form = envcfg
-        doc = payload(kind, VAL["envcfg"])
-        if form == "file":
-            files["envcfg.yaml"] = wrap(case, doc)
-            environ["APP_CFG"] = "@FILE@envcfg.yaml"
+        if kind.startswith("="):  # the variable names a file that is a default config file as well
+            fn, doc = same_source(case, "env")
+            environ[env_name(case, "cfg")] = "@FILE@" + fn
         else:
-            environ["APP_CFG"] = json.dumps(wrap(case, doc))
+            doc = payload(kind, VAL["envcfg"])
+            if form == "file":
+                files["envcfg.yaml"] = wrap(case, doc)
+                environ[env_name(case, "cfg")] = "@FILE@envcfg.yaml"
+            else:
+                environ[env_name(case, "cfg")] = json.dumps(wrap(case, doc))
         if on:
             sources.append(("env_config", assignments_of_config(doc)))
     v = VAL["envvar"]
-    pre = "APP_S__" if case["shape"] == "sub" else "APP_"
     ev = []
+
+    def var(key):  # name of the variable of a key of the (sub)parser
+        return env_name(case, (subname(case) + "." if case["shape"] == "sub" else "") + key)
+
     for key in case.get("envvars") or []:
         if key == "a":
-            environ[pre + "A"] = str(v)
+            environ[var("a")] = str(v)
             ev.append(("a", "set", v))
         elif key in ("n.x", "n.y"):
-            environ[pre + "N__" + key[2:].upper()] = str(v)
+            environ[var(key)] = str(v)
             ev.append((key, "set", v))
         elif key == "l":
-            environ[pre + "L"] = f"[{v}]"
+            environ[var("l")] = f"[{v}]"
             ev.append(("l", "set", [v]))
         elif key == "d":
             doc = {"k": v, f"e{v}": v}
-            environ[pre + "D"] = json.dumps(doc)
+            environ[var("d")] = json.dumps(doc)
             ev.append(("d", "set", doc))
         elif key == "t":
-            environ[pre + "T"] = f"v{v}"
+            environ[var("t")] = f"v{v}"
             ev.append(("t", "set", f"v{v}"))
         # variables that carry the empty value of the key's type (the variable is present, its value is "" / 0 / [] / {})
         elif key == "t0":
-            environ[pre + "T"] = ""
+            environ[var("t")] = ""
             ev.append(("t", "set", ""))
         elif key == "m":
-            environ[pre + "M"] = f"[{v}]"
+            environ[var("m")] = f"[{v}]"
             ev.append(("m", "set", [v]))
         elif key == "m0":
-            environ[pre + "M"] = "[]"
+            environ[var("m")] = "[]"
             ev.append(("m", "set", []))
         elif key == "a0":
-            environ[pre + "A"] = "0"
+            environ[var("a")] = "0"
             ev.append(("a", "set", 0))
         elif key == "n.x0":
-            environ[pre + "N__X"] = "0"
+            environ[var("n.x")] = "0"
             ev.append(("n.x", "set", 0))
         elif key == "l0":
-            environ[pre + "L"] = "[]"
+            environ[var("l")] = "[]"
             ev.append(("l", "set", []))
         elif key == "d0":
-            environ[pre + "D"] = "{}"
+            environ[var("d")] = "{}"
             ev.append(("d", "set", {}))
         else:
             raise AssertionError(key)
     if ev and on:
         sources.append(("env_var", ev))
     if case.get("env_subcommand"):
-        environ["APP_SUBCOMMAND"] = "s"
+        environ[env_name(case, "subcommand")] = subname(case)
     mode = case.get("mode", "on")
     if mode == "envon":
         environ["JSONARGPARSE_DEFAULT_ENV"] = "true"
@@ -362,7 +450,7 @@ def extract(case, cfg):
 
     ns = cfg
     if case["shape"] == "sub":
-        ns = cfg.get("s")
+        ns = cfg.get(subname(case))
         if ns is None or not hasattr(ns, "keys"):
             return None, None, ["<no subcommand namespace>"]
     plain = {}
@@ -396,6 +484,8 @@ def observe(base, clis):
                     f.write(files[fn])
                 else:
                     json.dump(files[fn], f)
+        for key in ["cfg", "subcommand", "t"] + [(subname(base) + "." if shape == "sub" else "") + k for k in KEYS + ["cfg"]]:
+            os.environ.pop(env_name(base, key), None)  # nothing inherited under the names this parser reads
         for k, v in environ.items():
             if v.startswith("@FILE@"):
                 v = os.path.join(d, v[6:])
@@ -418,9 +508,9 @@ def observe(base, clis):
                     if name.startswith("root"):
                         assert not sub_started, "root-level items come before the subcommand"
                     elif not sub_started:
-                        argv.append("s")
+                        argv.append(subname(base))
                         sub_started = True
-                    tok, assigns, fs = cli_item(name, pos, shape, d)
+                    tok, assigns, fs = cli_item(name, pos, shape, d, base)
                     for fn, doc in fs.items():
                         if fn not in written:  # content is a function of the name (kind and position)
                             written.add(fn)
@@ -429,7 +519,7 @@ def observe(base, clis):
                     argv.extend(tok if isinstance(tok, list) else [tok])
                     sources.append(("cli:" + name.split(":")[0], assigns))
                 if not sub_started:
-                    argv.append("s")
+                    argv.append(subname(base))
                 o = outcome(parser.parse_args, list(argv), **call_kw)
             elif method == "get_defaults":
                 o = outcome(parser.get_defaults)
@@ -438,10 +528,14 @@ def observe(base, clis):
             elif method == "parse_env_dict":
                 o = outcome(parser.parse_env, dict(environ_now))
             elif method in ("parse_string", "parse_object", "parse_path"):
-                doc = payload(base["given"], VAL["given"])
+                again = base["given"].startswith("=")  # parse_path is given a file that an earlier source applied already
+                doc = same_source(base, base["given"][1:])[1] if again else payload(base["given"], VAL["given"])
                 sources.append(("given:" + method, assignments_of_config(doc)))
                 doc = wrap(base, copy.deepcopy(doc))
-                if method == "parse_string":
+                if again:
+                    assert method == "parse_path"
+                    o = outcome(parser.parse_path, os.path.join(d, same_source(base, base["given"][1:])[0]), **call_kw)
+                elif method == "parse_string":
                     o = outcome(parser.parse_string, json.dumps(doc), **call_kw)
                 elif method == "parse_object":
                     o = outcome(parser.parse_object, doc, **call_kw)
@@ -483,6 +577,8 @@ def _src_of(value):
         return "code_default"
     if value == VAL["given"]:
         return "given"
+    if value == VAL["same"]:
+        return "cli"
     return {1: "default_config", 2: "default_config", 3: "default_config", 4: "env_config", 5: "env_var"}.get(value // 10, "cli")
 
 
@@ -544,7 +640,7 @@ def origin_class(base, source_name):
     cls = source_name.split(":")[0]
     if base["shape"] == "sub":
         # everything that reaches the subcommand's keys through a document of the ROOT parser
-        if cls in ("default_config", "env_config", "given") or source_name.startswith("cli:rootcfg"):
+        if cls in ("default_config", "env_config", "given") or source_name.startswith("cli:root"):
             return "root-level-config"
     if cls == "default_config":
         return cls
@@ -590,6 +686,9 @@ def truncations(base):
     for slot in DCF_SLOTS:
         if dcf.get(slot):
             present.append(slot)
+    again = base.get("listed") == "again" and dcf.get("D1")
+    if again:  # the second application of the first file is a source of its own (removed by listing the file once)
+        present.append("D1again")
     if base.get("envcfg"):
         present.append("envcfg")
     if base.get("envvars"):
@@ -601,6 +700,8 @@ def truncations(base):
         keep = set(present[:i])
         b = dict(base)
         b["dcf"] = {k: v for k, v in dcf.items() if k in keep}
+        if again and "D1again" not in keep:
+            b["listed"] = "all"
         b["envcfg"] = base.get("envcfg") if "envcfg" in keep else None
         b["envvars"] = list(base.get("envvars") or []) if "envvars" in keep else []
         if "given" in base:
@@ -613,6 +714,8 @@ def truncations(base):
 def physical_source_name(base, added):
     if added in DCF_SLOTS:
         return "default_config:" + added
+    if added == "D1again":
+        return "default_config:D1"
     if added == "envcfg":
         return "env_config" if env_enabled(base) else "env_config(environment disabled)"
     if added == "envvars":
@@ -722,6 +825,8 @@ def judge(base, clis):
                                     what = NO_EFFECT_EMPTY
                             # the trigger of "source ignored" in the subcommand shape is how the subcommand was selected
                             tag = sel_tag if what == "assignment-had-no-effect" else ""
+                            if added == "D1again":
+                                tag += ":file-listed-a-second-time"
                             if added in DCF_SLOTS:
                                 # differential again: does the file work once the empty files before it are removed?
                                 before = [s_ for s_ in DCF_SLOTS[: DCF_SLOTS.index(added)] if b_i["dcf"].get(s_) in RAW_CONTENT]
@@ -755,6 +860,7 @@ def judge(base, clis):
             "nothing": sorted({origin_class(base, n).split(":")[0] for n, a in sources if not a}),
             "empty": sorted({origin_class(base, n).split(":")[0] for n, a in sources for _k, op, v in a if op == "set" and v in (0, "", [], {})}),
             "empty_overrides": _empty_overrides(init, sources),
+            "file_twice": file_applied_twice(base, cli),
             "inherited": inherited,
             "agrees": o["kind"] == "ok" and not [k for k in KEYS if o["typed"][k] != tcanon(want[k])],
         }
@@ -762,6 +868,26 @@ def judge(base, clis):
     if results:
         results[0][2]["aux"] = aux[0]
     return results
+
+
+def file_applied_twice(base, cli):
+    """Is one and the same config file (same path) applied more than once in this history?"""
+    dcf = base.get("dcf") or {}
+    names = [DCF_FILE[s_] for s_ in DCF_SLOTS if dcf.get(s_)]
+    if base.get("listed") == "again" and dcf.get("D1"):
+        names.append(DCF_FILE["D1"])
+    envcfg = base.get("envcfg")
+    if envcfg and envcfg[1] == "file" and env_enabled(base):
+        names.append(same_source(base, "env")[0])
+    for pos, item in enumerate(cli):
+        head, _, arg = item.partition(":")
+        if head in ("samefile", "rootsamefile"):
+            names.append(item)
+        elif head in ("again", "rootagain"):
+            names.append(same_source(base, arg)[0])
+    if (base.get("given") or "").startswith("="):
+        names.append(same_source(base, base["given"][1:])[0])
+    return len(names) != len(set(names))
 
 
 def _empty_overrides(init, sources):
@@ -802,6 +928,8 @@ def _worker(item):
         "nothing": sorted({x for _c, _d, i in out for x in i["nothing"]}),
         "empty": sorted({x for _c, _d, i in out for x in i["empty"]}),
         "empty_overrides": sum(1 for _c, _d, i in out if i["empty_overrides"]),
+        "file_twice": sum(1 for _c, _d, i in out if i["file_twice"]),
+        "file_twice_multi": sum(1 for _c, _d, i in out if i["file_twice"] and i["multi"]),
         "cpu": cpu,
     }
     return base, devs, stats
@@ -994,7 +1122,10 @@ def plan(ctx):
     probe = [[], ["l+"], ["d.k"], ["cfgfile:A"], ["cfgstr:R"], ["cfgfile:A1"], ["cfgstr:N"], ["d.p"]]
     blocks.append(("wide-sources", wide, probe if quick else list(sequences(A, 2)) + probe[5:]))
     # B3 every subset of the default config files x env configs, medium command lines
-    blocks.append(("subsets-mid", std, list(sequences(A, 2 if quick else 3))))
+    # quick: on the six proper, non-empty subsets the env config and the env variables go together (3 instead of 6
+    # environment combinations; the other 18 bases stay in B2 with every single item, and in the thorough tier)
+    mid = [b for b in std if not quick or len(b["dcf"]) in (0, 4) or bool(b["envcfg"]) == bool(b["envvars"])]
+    blocks.append(("subsets-mid", mid, list(sequences(A, 2 if quick else 3))))
     # B4 other declarations of the same keys: the group as a dataclass (whole-group option --n); list / dict unset
     blocks.append(("shape-dc", list(bases("dc", "two", "std")), list(sequences(A + ["n", "nfile"], 2 if quick else 3))))
     blocks.append(("shape-flat0", list(bases("flat0", "two", "std")), list(sequences(A, 2 if quick else 3))))
@@ -1006,7 +1137,13 @@ def plan(ctx):
     for b in bases("sub", "two", "std", modes=("on", "off")):
         for es in (False, True) if b["mode"] == "on" else (False,):
             subb.append(dict(b, env_subcommand=es))
-    blocks.append(("subcommand", subb, sub_sequences(2 if quick else 3)))
+    if quick:
+        # environment switched off: what differs from "on" is only that the variables must be ignored, which does not
+        # depend on the command line -> single items there (the pairs run on the 24 bases with the environment on)
+        blocks.append(("subcommand", [b for b in subb if b["mode"] == "on"], sub_sequences(2)))
+        blocks.append(("subcommand", [b for b in subb if b["mode"] != "on"], sub_sequences(1)))
+    else:
+        blocks.append(("subcommand", subb, sub_sequences(3)))
     # B7 the non-CLI parse methods
     for shape in ("flat", "dc", "flat0", "sub"):
         dcf_level = "subsets" if quick else "kinds"
@@ -1020,7 +1157,9 @@ def plan(ctx):
         given = []
         for m in ("parse_string", "parse_object", "parse_path"):
             kinds = ("R", "A", "A1", "N") if shape != "sub" or not quick else ("R", "A")
-            given += list(bases(shape, dcf_level if shape != "sub" else "two", "std", modes=("on", "off"), method=m, givens=kinds))
+            # quick: that a switched-off environment is ignored by these methods is shown on flat and sub only
+            gm = ("on",) if quick and shape in ("dc", "flat0") else ("on", "off")
+            given += list(bases(shape, dcf_level if shape != "sub" else "two", "std", modes=gm, method=m, givens=kinds))
             if shape == "flat":
                 given += list(bases(shape, "two", "std", modes=ALL_MODES[2:], method=m, givens=kinds))
         if shape == "sub":
@@ -1062,6 +1201,61 @@ def plan(ctx):
             sube.append(dict(b, env_subcommand=es))
     SE = ["t0", "l0", "l+", "d.k", "rootcfgstr:Z", "cfgstr:Z"]
     blocks.append(("empty-values-sub", sube, [[]] + [[x] for x in SE] if quick else sub_sequences_over(["rootcfgstr:Z", "rootcfgstr:R"], SE[:4] + ["cfgstr:Z"], 2)))
+    # B9 THE SAME FILE applied more than once in one history: twice (or more) on the command line with other items in
+    #    between, the file that APP_CFG names / a default config file given again on the command line or to
+    #    parse_path, APP_CFG naming a default config file, a default config file listed twice.  The fold needs no
+    #    change: every application is one more source at its position.
+    full_dcf = {"D1": "R", "Ga": "A", "Gb": "R", "D3": "A"}
+    app_dcf = {"D1": "A", "Ga": "R"}  # the first default config file appends
+    n_same = 3 if quick else 4
+
+    def sbase(shape, dcf, envcfg, **kw):
+        # only ONE individual environment variable: with all of them every key the env config writes would be
+        # overwritten right away and a second application of its file that is skipped could not be seen
+        return dict({"shape": shape, "mode": "on", "listed": "all", "dcf": dcf, "envcfg": envcfg, "envvars": ["a"] if dcf else [], "method": "parse_args"}, **kw)
+
+    S = ["samefile:R", "samefile:A", "a", "l+", "d.k"]
+    same_bases = [sbase("flat", dcf, e) for dcf in ({}, full_dcf) for e in (None, ["R", "file"], ["A", "file"]) if dcf or not e or not quick]
+    same_bases += [sbase("flat", full_dcf, ["=D1", "file"]), sbase("flat", app_dcf, ["=D1", "file"])]
+    for b in same_bases:
+        again = [x for x in ("again:env", "again:D1") if applicable(b, x)]
+        if b["envcfg"] and b["envcfg"][0] == "=D1":
+            again = ["again:D1"]  # one and the same file
+        blocks.append(("same-file-cli", [b], list(sequences(S + again, n_same))))
+    for shape in ("dc", "flat0"):
+        blocks.append((f"same-file-{shape}", [sbase(shape, full_dcf, ["A", "file"])], list(sequences(S[:4] + ["again:env"], n_same))))
+    for dcf, envcfg, es in (({}, None, False), (full_dcf, ["A", "file"], False), (full_dcf, ["R", "file"], True)):
+        b = sbase("sub", dcf, envcfg, env_subcommand=es)
+        roots = ["rootsamefile:A"] + [x for x in (["rootagain:env"] if quick else ["rootagain:env", "rootagain:D1", "rootsamefile:R"]) if applicable(b, x)]
+        blocks.append(("same-file-sub", [b], sub_sequences_over(roots, S[:3], n_same)))
+    sm = []
+    for e in (["R", "file"], ["A", "file"]):  # parse_path is given the file of the env config / a default config file
+        for mode in ("on", "off"):
+            sm += [sbase("flat", full_dcf, e, mode=mode, method="parse_path", given=g) for g in ("=env", "=D1")]
+    sm.append(sbase("flat", app_dcf, ["R", "str"], method="parse_path", given="=D1"))
+    for dcf in (full_dcf, app_dcf):  # APP_CFG names the first default config file
+        sm += [sbase("flat", dcf, ["=D1", "file"], method=m) for m in ("parse_env", "parse_env_dict")]
+        sm += [sbase("flat", dcf, ["=D1", "file"], method=m, given=g) for m, g in (("parse_string", "R"), ("parse_object", "A"), ("parse_path", "=D1"))]
+    blocks.append(("same-file-methods", sm, [[]]))
+    # the first default config file listed a second time at the end of the list
+    blocks.append(("same-file-listed-twice", list(bases("flat", "kinds", "none", listed=("again",), method="get_defaults")), [[]]))
+    twice = [b for b in bases("flat", "kinds", "std", listed=("again",)) if bool(b["envcfg"]) == bool(b["envvars"]) and (b["envcfg"] or ["A"])[0] == "A"]
+    blocks.append(("same-file-listed-twice", twice, [[], ["l+"]] if quick else list(sequences(A, 1))))
+    # B10 the SHAPE OF THE NAMES from which the prefix of the environment variables is derived (explicit prefix with a
+    #     dash / in mixed case, prefix derived from prog with dash and extension, no prefix at all): the environment
+    #     sources must apply at their position whatever the prefix looks like
+    P6 = [[], ["a"], ["l+"], ["d.k"], ["cfgfile:A"], ["cfgstr:R"]]
+    for naming in [n for n in NAMING if n != "APP"]:
+        nb = [dict(b, naming=naming) for b in bases("flat", "two", "std")]
+        blocks.append(("env-prefix-shapes", nb, P6 if quick else list(sequences(A, 2))))
+        nm = [dict(b, naming=naming) for b in bases("flat", "two", "std", modes=("envon", "argon", "off"))]
+        for m in ("parse_env", "parse_env_dict"):
+            nm += [dict(b, naming=naming) for b in bases("flat", "two", "std", method=m)]
+        for m, gs in (("parse_string", "R"), ("parse_object", "A"), ("parse_path", "A")) if quick else [(m, "RA") for m in ("parse_string", "parse_object", "parse_path")]:
+            nm += [dict(b, naming=naming) for b in bases("flat", "two", "std", method=m, givens=tuple(gs))]
+        blocks.append(("env-prefix-shapes-methods", nm, [[]]))
+        ns = [dict(b, naming=naming, env_subcommand=es) for b in bases("sub", "two", "std") for es in (False, True)]
+        blocks.append(("env-prefix-shapes-sub", ns, [[], ["l+"]] if quick else sub_sequences(1)))
     if only:
         blocks = [b for b in blocks if any(b[0].startswith(o) for o in only.split(","))]
     return blocks
@@ -1104,7 +1298,7 @@ def explore(ctx):
                 if ch:
                     items.append((dict(b, _block=name), ch))
                     n += len(ch)
-        block_sizes[name] = n
+        block_sizes[name] = block_sizes.get(name, 0) + n
     tot = collections.Counter()
     models, ops, last = set(), set(), set()
     nothing, empty = set(), set()
@@ -1112,12 +1306,14 @@ def explore(ctx):
     per_axis = collections.Counter()
     for base, devs, st in ctx.pmap(_worker, items, chunk=1):
         cpu_per_block[base.pop("_block")] += st["cpu"]
-        for k in ("n", "steps", "multi", "ok", "agree", "inherited", "aux", "empty_overrides"):
+        for k in ("n", "steps", "multi", "ok", "agree", "inherited", "aux", "empty_overrides", "file_twice"):
             tot[k] += st[k]
         nothing.update(st["nothing"])
         empty.update(st["empty"])
         for axis in ("shape", "method", "mode"):
             per_axis[axis + "=" + str(base.get(axis))] += st["n"]
+        if env_enabled(base) and (base.get("envcfg") or base.get("envvars")):
+            per_axis["env-prefix=" + (base.get("naming") or "APP")] += st["n"]
         per_axis["environment=" + ("applies" if env_enabled(base) else "ignored")] += st["n"]
         models.update(st["models"])
         ops.update(st["ops"])
@@ -1152,6 +1348,7 @@ def explore(ctx):
             "root_level_items": ROOT_ITEMS,
             "keys": KEYS,
             "cli_alphabet_empty_values": CLI_EMPTY,
+            "cli_alphabet_same_file_again": CLI_SAME + ROOT_SAME,
             "payload_kinds": {k: payload(k, 0) for k in ("R", "A", "A1", "N", "Z", "E")},
             "empty_default_config_file_contents": RAW_CONTENT,
         },
@@ -1164,6 +1361,8 @@ def explore(ctx):
         auxiliary_runs=tot["aux"],
         last_source_classes=sorted(last),
         histories_in_which_an_empty_value_overrides_or_is_built_upon=tot["empty_overrides"],
+        histories_in_which_the_same_config_file_is_applied_more_than_once=tot["file_twice"],
+        env_prefix_shapes=NAMING,
         source_classes_assigning_an_empty_value=sorted(empty),
         source_classes_giving_a_document_that_assigns_nothing=sorted(nothing),
     )
@@ -1190,3 +1389,8 @@ def explore(ctx):
         )
         ctx.require({"default_config", "env_config", "cli", "given"} <= nothing, "every config source class gives an empty document in some history")
         ctx.require(tot["empty_overrides"] >= 2000, "at least 2000 histories in which an empty value overrides a non-empty one or is built upon")
+        ctx.require(tot["file_twice"] >= 1000, "at least 1000 histories in which one and the same config file is applied more than once")
+        ctx.require(
+            all(per_axis["env-prefix=" + n] >= 100 for n in NAMING),
+            "every shape of the environment prefix has at least 100 histories in which environment sources are given and apply",
+        )
